@@ -885,3 +885,32 @@ brk("B59c", "pattern keyword memoises compiled patterns in a class-level dict on
         validator.is_type(instance, "string") and
         not cache[patrn].search(instance)
     ):''')], {"C18": "R18.2|", "C05": "R5.4|"})
+
+
+# --------------------------------------------------------------------------- C17
+brk("B55", "ErrorTree.__init__: file under error.message",
+    [(E, "            container.errors[error.validator] = error", "            container.errors[error.message] = error")], {"C17": "R17.2|"})
+
+brk("B55b", "ErrorTree.__init__: walk through the checked __getitem__ (the pre-fix shape)",
+    [(E, "                container = container._contents[element]", "                container = container[element]")], {"C17": "R17.1|"})
+
+brk("B56", "total_errors: drop len(self.errors)",
+    [(E, "        return len(self.errors) + child_errors", "        return child_errors")], {"C17": "R17.4|"})
+
+brk("B56b", "total_errors: only the first child",
+    [(E, "        child_errors = sum(len(tree) for _, tree in self._contents.items())",
+      "        child_errors = sum(len(tree) for _, tree in list(self._contents.items())[:1])")], {"C17": "R17.4|"})
+
+brk("B56c", "ErrorTree walk does not restart at the root",
+    [(E, '''        for error in errors:
+            container = self
+            for element in error.path:''', '''        container = self
+        for error in errors:
+            for element in error.path:''')], {"C17": "R17.2|"})
+
+brk("B56d", "__contains__ looks at the errors dict",
+    [(E, "        return index in self._contents", "        return index in self.errors")], {"C17": "R17.3|"})
+
+keep("P30", "total_errors without the temporary",
+     [(E, '''        child_errors = sum(len(tree) for _, tree in self._contents.items())
+        return len(self.errors) + child_errors''', '''        return len(self.errors) + sum(tree.total_errors for tree in self._contents.values())''')])
